@@ -235,9 +235,11 @@ static void alloc_case(::verif::Case& c) {
     stats.add(std::string("law_") + LAWS[li]);
     IR disp(7, 7, 0);
     // unsupported kernel type: accepted by the constructor, operator() throws
-    if (rng.coin(2)) {
+    if (rng.coin(4)) {
         Built b; Probe* k = emit_new(out, "none", rng.coin() ? DispersalKernelType::Uniform : DispersalKernelType::None, disp, pct, Dy{16, 16}, Dy{24, 16}, scale, shape, b);
-        if (k) { disp(1, 1) = 3; emit_call(out, *k, 1, 1, 3); delete k; }
+        // every call must throw, also a repeated call for the same cell after the first exception was caught, and a call
+        // for another cell in between
+        if (k) { disp(1, 1) = 3; disp(2, 2) = 2; emit_call(out, *k, 1, 1, 3); emit_call(out, *k, 1, 1, 3); emit_call(out, *k, 2, 2, 2); emit_call(out, *k, 1, 1, 3); emit_call(out, *k, 1, 1, 3); delete k; }
         stats.add("unsupported_type"); return;
     }
     // out-of-domain parameters: some member constructor throws invalid_argument
